@@ -30,8 +30,8 @@ from mitmproxy import connection
 from mitmproxy.connection import ConnectionState
 from mitmproxy.proxy import commands, context, events, layer, tunnel
 
-from vmc import explore
-from vmc.tally import HarnessError, Tally
+from vmc import explore, par
+from vmc.tally import HarnessError, Tally, digest
 
 META = {
     "level": "model_checking",
@@ -139,12 +139,18 @@ class Mux(layer.Layer):
         self.src = {}
 
     def _handle_event(self, event):
+        if isinstance(event, events.CommandCompleted):
+            # a child's completion: pure routing, no program of its own
+            kid = self.src.pop(event.command)
+            for cmd in kid.handle_event(event):
+                if cmd.blocking:
+                    self.src[cmd] = kid
+                yield cmd
+            return
         ev = self.sys.name_of(event)
         yield from run_prog(self.sys, self, "M", ev)
         if isinstance(event, events.Start):
             kids = [self.a, self.b]
-        elif isinstance(event, events.CommandCompleted):
-            kids = [self.src.pop(event.command)]
         elif event.connection is self.context.client:
             kids = [self.a]
         else:
@@ -409,12 +415,16 @@ def owner(tok):
 
 
 class Spec:
-    def __init__(self, n, progs, topos, debugs, kinds_extra):
+    def __init__(self, n, progs, topos, debugs, n_debug):
         self.n, self.progs, self.topos, self.debugs = n, progs, topos, debugs
-        self.kinds_extra = kinds_extra
+        self.n_debug = n_debug
+        self.prefix = ()  # actions applied by build(): one BFS per prefix is dealt to the worker pool
 
     def build(self):
-        return Sys()
+        s = Sys()
+        for a in self.prefix:
+            self.apply(s, a)
+        return s
 
     def actions(self, s: Sys):
         if s.topo is None:
@@ -433,8 +443,8 @@ class Spec:
             else:
                 acts.append(["done", tok, None])
         tp = s.topo
-        P = self.progs
-        P2 = [p for p in P if p in ("", "B")]
+        P = self.progs[tp]
+        P2 = ["", "B"]
         if s.n == 0 and tp != "single":
             # Start is always the first event of a real connection
             if tp == "mux":
@@ -453,7 +463,7 @@ class Spec:
                 for pc in P2:
                     acts.append(["ev", "S", {"C": pc}, None])
             return acts
-        nmax = self.n + (0 if tp == "single" else 1)
+        nmax = (self.n_debug if (s.debug and self.n_debug) else self.n)[tp] + (0 if tp == "single" else 1)
         if s.n < nmax:
             if tp == "single":
                 for k in ["D", "F"]:
@@ -468,9 +478,7 @@ class Spec:
             elif tp == "tunnel_open":
                 opened = any("O" in p for p in s.progs.values())
                 for k in ["D", "Y"]:
-                    for pc in P + (["O", "OB"] if not opened else []):
-                        if "O" in pc and pc not in ("O", "OB"):
-                            continue
+                    for pc in [p for p in P if "O" not in p] + (["O", "OB"] if not opened else []):
                         acts.append(["ev", k, {"C": pc}, None])
             elif tp == "mux":
                 for pm in P2:
@@ -522,11 +530,14 @@ class Spec:
 
     # -- the oracle
     def check(self, s: Sys, hist, t: Tally):
-        if s.topo is None:
-            return
-        case = {"hist": [list(a) for a in hist]}
+        if s.topo is None or (self.prefix and not hist):
+            return  # the prefix states themselves were judged by the parent
+        case = {"hist": [list(a) for a in self.prefix] + [list(a) for a in hist]}
         nontrivial = bool(s.replies) or bool(s.outstanding)  # some blocking command was emitted
-        t.case(None, nontrivial=nontrivial, key=self.fingerprint(s))
+        fp = self.fingerprint(s)
+        t.case(None, nontrivial=nontrivial, key=fp)
+        t.state(fp)
+        t.add("transitions_" + s.topo)
         base = {"topo": s.topo, "debug": s.debug}
         t.judge("no_exception_from_layer", s.crash is None, dict(base, layer="-"), case, None, s.crash)
         t.judge("blocking_commands_emitted_once_and_marked", not s.anomalies, dict(base, layer="-"), case, None, s.anomalies)
@@ -594,27 +605,90 @@ class Spec:
         if s.topo is None:
             return
         t.outcome([s.topo, s.logs, s.crash])
-        if len(t.samples) < 3 and len(hist) >= 6:
-            t.samples.append({"hist": [list(a) for a in hist], "logs": s.logs})
+        if len(t.samples) < 3 and len(hist) >= 5:
+            t.samples.append({"hist": [list(a) for a in self.prefix] + [list(a) for a in hist], "logs": s.logs})
+
+
+# programs: B = custom blocking command (token reply), H = real blocking hook, O = real OpenConnection
+# (both replies), N = non-blocking SendData.  "BB": the 2nd command is reached through __process,
+# "NHN": non-blocking commands on both sides of a blocking one.
+P5 = ["", "B", "BB", "NHN", "O"]
+P4 = ["", "B", "BB", "NHN"]
+P3 = ["", "B", "BB"]
+PROGS_QUICK = {"single": P5, "tunnel": P4, "tunnel_open": P3, "mux": P3, "nextlayer": P3, "tunnel_nextlayer": P3}
+PROGS_THOROUGH = {"single": P5, "tunnel": P4, "tunnel_open": P4, "mux": P3, "nextlayer": P3, "tunnel_nextlayer": P4}
+N_QUICK = {"single": 3, "tunnel": 2, "tunnel_open": 2, "mux": 2, "nextlayer": 3, "tunnel_nextlayer": 2}
+N_THOROUGH = {"single": 4, "tunnel": 3, "tunnel_open": 3, "mux": 3, "nextlayer": 4, "tunnel_nextlayer": 3}
+PREFIX_LEN = 3
 
 
 def make_spec(tier):
     if tier == "thorough":
-        return Spec(4, ["", "B", "BB", "NHN"], TOPOS, [False, True], None)
-    return Spec(3, ["", "B", "BB", "NHN"], TOPOS, [False], None)
+        # with proxy_debug on (extra Log commands from Layer.__debug) the quick event bound is used
+        return Spec(N_THOROUGH, PROGS_THOROUGH, TOPOS, [False, True], N_QUICK)
+    if tier == "replay":
+        return Spec(dict((k, 9) for k in TOPOS), PROGS_THOROUGH, TOPOS, [False, True], None)
+    return Spec(N_QUICK, PROGS_QUICK, TOPOS, [False], None)
+
+
+def _prefixes(spec, t: Tally):
+    """all histories of PREFIX_LEN actions (judged here, in the parent), de-duplicated by fingerprint"""
+    out, seen = [], set()
+
+    def rec(hist):
+        s = spec.build()
+        for a in hist:
+            spec.apply(s, a)
+        if hist:
+            t.transitions += 1
+            spec.check(s, hist, t)
+        fp = digest(spec.fingerprint(s))
+        if fp in seen:
+            return
+        seen.add(fp)
+        acts = spec.actions(s)
+        if not acts:
+            spec.final(s, hist, t)
+            t.executions += 1
+            return
+        if len(hist) >= PREFIX_LEN:
+            out.append(hist)
+            return
+        for a in acts:
+            rec(hist + (a,))
+
+    rec(())
+    return out
+
+
+_TIER = "quick"
+
+
+def _bfs_chunk(chunk):
+    t = Tally()
+    for prefix in chunk:
+        spec = make_spec(_TIER)
+        spec.prefix = tuple(prefix)
+        explore.bfs(spec, 10 ** 6, t, nproc=1)
+    t.states = 0  # distinct states are counted through t.state() so that partitions do not double count
+    return t
 
 
 def run(ctx):
+    global _TIER
+    _TIER = ctx.tier
     spec = make_spec(ctx.tier)
-    ctx.bounds = {"events_after_start": spec.n, "programs_per_event": spec.progs, "topologies": spec.topos,
+    ctx.bounds = {"events_after_start_per_topology": spec.n, "programs_per_event": spec.progs, "topologies": spec.topos,
                   "proxy_debug": spec.debugs, "depth": "unbounded (every history runs until all events are delivered and nothing is outstanding)"}
-    states, capped = explore.bfs(spec, 10 ** 6, ctx.tally, log=ctx.log)
-    if capped:
-        ctx.cap("max_states")
+    pre = _prefixes(spec, ctx.tally)
+    ctx.log("%d prefixes of %d actions; one full BFS below each" % (len(pre), PREFIX_LEN))
+    par.pmap_tally(_bfs_chunk, pre, ctx.tally, nchunks=min(len(pre), 16 * 8))
+    ctx.tally.max_depth += PREFIX_LEN
+    ctx.log("done: %d distinct states" % len(ctx.tally.state_set))
 
 
 def replay(case, t: Tally, verbose=False):
-    spec = make_spec("thorough")
+    spec = make_spec("replay")
     s = spec.build()
     hist = []
     for a in case["hist"]:
